@@ -1,7 +1,7 @@
 (* The software version of an SSH identification string for the vendors the library splits into vendor and version:
    SshSoftwareVersionParsedBase._parse / compose (cryptoparser/ssh/version.py; OpenSSH and dropbear with "_", IPSSH with "-").
    The vendor is the text before the first separator; exactly one separator follows (a run of separators is left to the class that
-   keeps the string verbatim: InvalidType); the version is everything after it and must not be empty.  Definitions only. *)
+   keeps the string verbatim: InvalidType, and so is a separator with nothing after it); the version is everything after it.  Definitions only. *)
 From Coq Require Import ZArith List Bool.
 From Coq.Strings Require Import Byte.
 From CP Require Import Core.Bytes Core.Result Text.Field.
@@ -13,7 +13,7 @@ Definition sw_parse (vendor : bytes) (sep : byte) (l : bytes) : result (option b
   if negb (bytes_eqb v vendor) then Err InvalidType else
   match rest with
   | [] => Ok None
-  | _ :: [] => Err (NotEnoughData 1)
+  | _ :: [] => Err InvalidType                 (* the separator and nothing after it: not split either *)
   | _ :: (c :: _) as r1 => if Byte.eqb c sep then Err InvalidType else Ok (Some r1)
   end.
 
